@@ -1,5 +1,6 @@
 import ChfVerif.Lemmas.TS32297
 import ChfVerif.Props.C14
+import ChfVerif.Gen.CdrFileFacts
 /-
   C15 — the bytes written for a CDR file follow the TS 32.297 clause 6.1 layout: an
   independent reader written from the specification (Spec/TS32297.lean: cursor-based, div/mod
@@ -40,6 +41,57 @@ theorem C15_prefix (f : File) :
 theorem C15_ext_order (h : FileHeader) (hh : h.highRel = 7) (hl : h.lowRel = 7) :
     encodeHeader h = fixedPart h ++ h.filter ++ be16 h.lenExt ++ h.ext ++ [h.highExt, h.lowExt] := by
   simp [encodeHeader, extPart, hh, hl]
+
+/-! ### the file on disk -/
+
+/-- when the destination is opened so that its old content is discarded, the file after `Encoding` is the
+    encoding and nothing else — whatever the destination held before -/
+theorem C15_on_disk (m : WriteMode) (hm : m.truncates = true) (old : Option Bytes) (f : File) :
+    encodingOnto m old f = encodeFile f := by
+  simp [encodingOnto, writeOver, hm]
+
+/-- the code at hand opens its destination that way, in one place (regenerated from cdrFile.go) -/
+theorem C15_encoding_truncates :
+    Chf.Gen.encodingWrites.length = 1 ∧ Chf.Gen.encodingWrite.truncates = true := by decide
+
+/-- C15 for the file as it is on disk: the independent reader recovers the structure from the destination
+    file, for every previous content of that file -/
+theorem C15_file_on_disk (old : Option Bytes) (f : File) (hw : f.WF) :
+    TS32297.read (encodingOnto Chf.Gen.encodingWrite old f) = some f := by
+  rw [C15_on_disk _ C15_encoding_truncates.2]
+  exact C15 f hw
+
+/-- … and it has exactly the length the layout prescribes -/
+theorem C15_disk_length (old : Option Bytes) (f : File) (hw : f.WF) :
+    (encodingOnto Chf.Gen.encodingWrite old f).length =
+      52 + f.hdr.lenFilter + f.hdr.lenExt + extCount f.hdr.highRel + extCount f.hdr.lowRel +
+        cdrsLength f.cdrs := by
+  rw [C15_on_disk _ C15_encoding_truncates.2]
+  exact C15_file_length f hw
+
+/-- the hypothesis is needed: a destination opened without truncation (and not for appending) keeps the tail of a
+    longer previous file, so the file on disk is longer than the layout prescribes and is not the encoding -/
+theorem C15_no_truncate_stale (old : Bytes) (f : File) (hlong : (encodeFile f).length < old.length) :
+    (encodingOnto ⟨false, false⟩ (some old) f).length = old.length ∧
+    encodingOnto ⟨false, false⟩ (some old) f ≠ encodeFile f := by
+  have hlen : (encodingOnto ⟨false, false⟩ (some old) f).length = old.length := by
+    simp only [encodingOnto, writeOver, Option.getD_some, Bool.false_eq_true, if_false,
+      List.length_append, List.length_drop]
+    omega
+  refine ⟨hlen, ?_⟩
+  intro h
+  rw [h] at hlen
+  omega
+
+/-- appending is no better: the new octets come after the old ones -/
+theorem C15_append_stale (old : Bytes) (f : File) (hne : old ≠ []) :
+    encodingOnto ⟨false, true⟩ (some old) f ≠ encodeFile f := by
+  intro h
+  have : (encodingOnto ⟨false, true⟩ (some old) f).length = old.length + (encodeFile f).length := by
+    simp [encodingOnto, writeOver]
+  rw [h] at this
+  have : old.length = 0 := by omega
+  exact hne (List.eq_nil_of_length_eq_zero this)
 
 example : TS32297.read (encodeFile C14.sample) = some C14.sample := by decide
 
